@@ -706,3 +706,114 @@ def fragment(fn_text: str, path: str, kind: str, ordinal) -> str:
             j = src.match[j]
         j = src.next_sig(j)
     raise ExtractError(f"{path}: {kind}#{ordinal}: body not found")
+
+
+def split_or_guard_arms(text: str, path: str) -> tuple[str, int]:
+    """R7: Verus rejects a match arm that has BOTH an or-pattern and a guard. Such arms are split mechanically into one arm per
+    alternative (cartesian product over the components of a tuple pattern), each with the same guard and the same body, in the same
+    position - the standard desugaring of or-patterns, semantics preserving because the guard and body do not bind differently per
+    alternative (alternatives of an or-pattern must bind the same names). Returns (new text, number of arms split)."""
+    src = Source(path, text)
+    toks = src.toks
+    edits = []   # (start_byte, end_byte, replacement)
+    nsplit = 0
+    for k in src.sig:
+        if not (toks[k].kind == "ident" and toks[k].text == "match"):
+            continue
+        # match body brace
+        j = src.next_sig(k)
+        while j is not None and not (toks[j].kind == "punct" and toks[j].text == "{"):
+            if toks[j].kind == "punct" and toks[j].text in OPEN:
+                j = src.match[j]
+            j = src.next_sig(j)
+        if j is None:
+            continue
+        lo, hi = j, src.match[j]
+        kids = list(src.children(lo, hi))
+        i = 0
+        while i < len(kids):
+            start = kids[i]
+            # pattern .. `=>`
+            a = i
+            arrow = None
+            if_tok = None
+            while a < len(kids):
+                t = toks[kids[a]]
+                if t.kind == "punct" and t.text == "=" and a + 1 < len(kids) and toks[kids[a + 1]].text == ">" and toks[kids[a + 1]].start == t.end:
+                    arrow = a
+                    break
+                if t.kind == "ident" and t.text == "if" and if_tok is None:
+                    if_tok = a
+                a += 1
+            if arrow is None:
+                break
+            # body
+            b = arrow + 2
+            if b >= len(kids):
+                break
+            if toks[kids[b]].kind == "punct" and toks[kids[b]].text == "{":
+                body_end = src.match[kids[b]]
+                nxt = b + 1
+                if nxt < len(kids) and toks[kids[nxt]].text == ",":
+                    nxt += 1
+            else:
+                c = b
+                while c < len(kids) and toks[kids[c]].text != ",":
+                    c += 1
+                body_end = kids[c - 1] if c > b else kids[b]
+                if toks[body_end].kind == "punct" and toks[body_end].text in OPEN:
+                    body_end = src.match[body_end]
+                nxt = c + 1
+            if if_tok is not None:
+                pat_toks = kids[i:if_tok]
+                pat_txt = text[toks[pat_toks[0]].start:toks[src.match[pat_toks[-1]] if toks[pat_toks[-1]].text in OPEN else pat_toks[-1]].end]
+                # the pattern may end with a bracket group: compute true end
+                last = pat_toks[-1]
+                pend = toks[src.match[last]].end if (toks[last].kind == "punct" and toks[last].text in OPEN) else toks[last].end
+                pat_txt = text[toks[pat_toks[0]].start:pend]
+                alts = _pattern_alternatives(pat_txt)
+                if len(alts) > 1:
+                    guard_txt = text[toks[kids[if_tok]].start:toks[kids[arrow]].start].rstrip()
+                    body_txt = text[toks[kids[b]].start:toks[body_end].end]
+                    arm_end = toks[kids[nxt - 1]].end if nxt - 1 < len(kids) and nxt - 1 >= 0 and toks[kids[nxt - 1]].text == "," else toks[body_end].end
+                    rep = "\n".join(f"{alt} {guard_txt} => {body_txt}," for alt in alts)
+                    edits.append((toks[start].start, arm_end, rep))
+                    nsplit += 1
+            i = nxt
+    for a, b, rep in sorted(edits, reverse=True):
+        text = text[:a] + rep + text[b:]
+    return text, nsplit
+
+
+def _split_depth0(s: str, sep: str) -> list[str]:
+    out, depth, cur = [], 0, ""
+    for ch in s:
+        if ch in "([{":
+            depth += 1
+        elif ch in ")]}":
+            depth -= 1
+        if ch == sep and depth == 0:
+            out.append(cur)
+            cur = ""
+        else:
+            cur += ch
+    out.append(cur)
+    return out
+
+
+def _pattern_alternatives(pat: str) -> list[str]:
+    pat = pat.strip()
+    tops = [x.strip() for x in _split_depth0(pat, "|")]
+    if len(tops) > 1:
+        res = []
+        for t in tops:
+            res += _pattern_alternatives(t)
+        return res
+    if pat.startswith("(") and pat.endswith(")"):
+        comps = [c.strip() for c in _split_depth0(pat[1:-1], ",")]
+        alts = [[]]
+        for c in comps:
+            ca = [x.strip() for x in _split_depth0(c, "|")]
+            alts = [a + [x] for a in alts for x in ca]
+        return ["(" + ", ".join(a) + ")" for a in alts]
+    return [pat]
